@@ -13,7 +13,7 @@ RULE = ("random construction programs: attribute assignment, register_module / r
 ASSUMPTIONS = ["registration order after re-assigning a name to an object of the same kind may keep the original slot or move to the end (both are "
                "'registration order'); order is asserted only among entries that were never re-assigned",
                "a parameter or module reachable along several paths is reported at its first occurrence in depth-first registration order"]
-SHARD_TIMEOUT = {"quick": 600, "thorough": 1800}
+SHARD_TIMEOUT = {"quick": 900, "thorough": 3600}
 
 
 def gen_cases(tier, seed):
